@@ -47,9 +47,16 @@ theorem argtopnZero_iff (n : Int) : argtopnZeroBranch n = 0 ↔ n = 0 := by simp
 /-- items without a score are set aside exactly when there is one (the model ranks `validPositions` only) -/
 theorem argtopnInvalid_iff (b : Bool) : argtopnInvalidBranch b = 0 ↔ b = true := by cases b <;> simp [argtopnInvalidBranch]
 
-/-- the partial sort is taken exactly for `0 ≤ n < N`; a negative `n` and an `n ≥ N` rank everything — the model's
-    `if n < 0 then sorted else sorted.take n` (taking `n ≥ N` of `N` is everything) -/
-theorem argtopnPartial_iff (n N : Int) : argtopnPartialBranch n N = 0 ↔ (0 ≤ n ∧ n < N) := by
-  simp [argtopnPartialBranch, LK.Py.ge, LK.Py.le, LK.Py.lt]
+/-- the partial sort is taken exactly for `0 ≤ n < N` (`n = 0` has left before); a negative `n` and an `n ≥ N` rank everything — the
+    model's `if n < 0 then sorted else sorted.take n` (taking `n ≥ N` of `N` is everything) -/
+theorem argtopnPartial_iff (n N : Int) (hn : n ≠ 0) : argtopnPartialBranch n N = 0 ↔ (0 ≤ n ∧ n < N) := by
+  simp only [argtopnPartialBranch, LK.Py.ge, LK.Py.le, LK.Py.lt, LK.Py.gt]
+  by_cases h : (0 ≤ n ∧ n < N)
+  · have h1 : 0 < n := by omega
+    simp [h.1, h.2, h1]
+  · have hor : n < 0 ∨ N ≤ n := by omega
+    rcases hor with hneg | hge
+    · simp [show ¬ (0 ≤ n) by omega, show ¬ (0 < n) by omega]
+    · simp [show ¬ (n < N) by omega]
 
 end LK.Gen.GuardsC03
